@@ -70,6 +70,10 @@ type Interp struct {
 	// CallSigs, when non-nil, collects builtin-name(arg types) signatures.
 	CallSigs map[string]bool
 	evalEnv  *Env // lexical environment of the innermost call site (what `eval` sees)
+	// Routes is set by InstallCallRoutes (routes.go): the model then also follows the
+	// builtins that call a callback in an order it does not predict when the callback
+	// fails whatever it is called with.
+	Routes bool
 }
 
 const LangPkg = "lisp"
@@ -305,7 +309,7 @@ func (in *Interp) evalCall(env *Env, form *V) (*V, *Err) {
 			return nil, e
 		}
 		// forms the macro built without any position take the macro call site
-		stampSite(exp, form.Src, 0)
+		exp = stampSite(exp, form.Src, 0)
 		return in.Eval(env, unquoteShallow(exp))
 	}
 	savedEnv := in.evalEnv
@@ -552,18 +556,40 @@ func (e *Err) String() string {
 
 var _ = fmt.Sprint
 
-func stampSite(v *V, site *sx.N, depth int) {
+// stampSite gives every node of an expansion that has no position the macro call
+// site ("a form a macro built without any position takes the macro call site").
+// It is the FORM of this expansion that takes the call site: a position-less value
+// that also lives elsewhere (a generated symbol held in a global and spliced into
+// several expansions) stays what it was, so the next expansion it is spliced into
+// takes ITS call site.  Hence copy-on-stamp: the nodes on the way to a stamped node
+// are copied, everything else is shared.
+func stampSite(v *V, site *sx.N, depth int) *V {
 	if v == nil || site == nil || depth > 200 || v == vNil || v == vTrue || v == vFalse {
-		return
+		return v
 	}
-	if v.Src == nil && v.K != KFun && v.K != KVec && v.K != KMap && v.K != KBytes {
-		v.Src = site
-	}
+	var kids []*V
 	if v.K == KList || v.K == KQuote {
-		for _, c := range v.L {
-			stampSite(c, site, depth+1)
+		for i, c := range v.L {
+			if n := stampSite(c, site, depth+1); n != c {
+				if kids == nil {
+					kids = append([]*V(nil), v.L...)
+				}
+				kids[i] = n
+			}
 		}
 	}
+	stamp := v.Src == nil && v.K != KFun && v.K != KVec && v.K != KMap && v.K != KBytes
+	if !stamp && kids == nil {
+		return v
+	}
+	c := *v
+	if stamp {
+		c.Src = site
+	}
+	if kids != nil {
+		c.L = kids
+	}
+	return &c
 }
 
 // Signature describes one function of the modelled language package.
